@@ -18,7 +18,6 @@ import sys, os, re
 sys.path.insert(0, os.path.join(os.path.dirname(os.path.abspath(__file__)), "..", "lib"))
 from vlib import *
 from modcorpus import *
-import c02 as C02
 
 INC = os.path.join(HARNESS, "moddrv_c07.inc")
 SYNS = ["der", "uper", "oer", "xer", "cxer"]
@@ -57,6 +56,7 @@ EXTRA_TEXT = """C07X DEFINITIONS AUTOMATIC TAGS ::= BEGIN
   FO ::= OCTET STRING (SIZE(3))
   I7 ::= INTEGER (0..7)
   SV ::= SET OF INTEGER (0..7)
+  BP ::= BIT STRING (SIZE(24))
 END
 """
 # (type, DER of a value)
@@ -71,88 +71,14 @@ EXTRA_VALUES = [
     ("FO", "0403010203"), ("FO", "040401020304"), ("FO", "0400"),
     ("I7", "020105"), ("I7", "020109"), ("I7", "0201ff"),
     ("SV", "3106020101020103"), ("SV", "3106020101020109"),
+    # shorter than the fixed size: BIT_STRING_encode_oer pads with zero octets (1, 3 and 0 octets of padding)
+    ("BP", "03030000aa"), ("BP", "030100"), ("BP", "030400aabbcc"),
 ]
 
 
 def extra_module():
-    names = ["EO", "PO", "NU", "SN", "RC", "SS", "FO", "I7", "SV"]
+    names = ["EO", "PO", "NU", "SN", "RC", "SS", "FO", "I7", "SV", "BP"]
     return {"name": "C07X", "default": "AUTOMATIC", "defs": [(n, None) for n in names], "trees": {}, "text": EXTRA_TEXT}
-
-
-# ---------------------------------------------------------------- known-finding classifiers (narrow)
-
-def oer_seq_with_preamble(text_or_tree):
-    """model tree contains a SEQUENCE with at least one OPTIONAL member (OER preamble)"""
-    t = text_or_tree
-    k = t[0]
-    if k == "s":
-        return any(m[0] == "?" for m in t[2]) or any(oer_seq_with_preamble(m) for m in t[2])
-    if k == "c":
-        return any(oer_seq_with_preamble(a) for a in t[1])
-    if k in ("q", "t"):
-        return oer_seq_with_preamble(t[3])
-    if k in ("x", "?"):
-        return oer_seq_with_preamble(t[-1])
-    return False
-
-
-def has_setof(t):
-    k = t[0]
-    if k == "t":
-        return True
-    if k == "s":
-        return any(has_setof(m) for m in t[2])
-    if k == "c":
-        return any(has_setof(a) for a in t[1])
-    if k == "q":
-        return has_setof(t[3])
-    if k in ("x", "?"):
-        return has_setof(t[-1])
-    return False
-
-
-def has_null(t):
-    k = t[0]
-    if k == "n":
-        return True
-    if k == "s":
-        return any(has_null(m) for m in t[2])
-    if k == "c":
-        return any(has_null(a) for a in t[1])
-    if k in ("q", "t"):
-        return has_null(t[3])
-    if k in ("x", "?"):
-        return has_null(t[-1])
-    return False
-
-
-def null_tl_chain(chunks, k):
-    """chunks[k..j-1] are constructed TLs (EXPLICIT tags) and chunks[j] is a primitive TL with length 00, j - k <= 3"""
-    for j in range(k, min(k + 4, len(chunks))):
-        c = chunks[j]
-        if len(c) < 2:
-            return False
-        if not (c[0] & 0x20):
-            return c[-1] == 0
-    return False
-
-
-EXTRA_TRAITS = {"EO": {"oerpre", "oerext"}, "PO": {"oerpre"}, "NU": {"null"}, "SN": {"null"}, "RC": {"null"}, "SS": {"setof"}, "SV": {"setof"},
-                "FO": set(), "I7": set()}
-
-
-def traits(m, tn):
-    if m["name"] == "C07X":
-        return EXTRA_TRAITS[tn]
-    tree = m["trees"][tn]
-    s = set()
-    if oer_seq_with_preamble(tree):
-        s.add("oerpre")
-    if has_null(tree):
-        s.add("null")
-    if has_setof(tree):
-        s.add("setof")
-    return s
 
 
 # ---------------------------------------------------------------- constraint-violating values
@@ -214,18 +140,13 @@ class Ctx:
         self.mexpect = []         # (replay dict, expected line from the C)
 
 
-def check_sweep(ctx, m, tn, der, syn, out, tr, model_bytes, label):
+def check_sweep(ctx, m, tn, der, syn, out, model_bytes, label):
     """out: the `sweep` result line.  model_bytes: hex | 'NONE' | None (no model for this syntax)."""
     run = ctx.run
     line = "sweep %s der %s %s" % (tn, der, syn)
     rep = {"module": m["text"], "type": tn, "der": der, "syntax": syn, "command_line": line, "c": out[:1500], "label": label}
     segs = out.split(" | ")
     head = kv(segs[0])
-    if "DIED" in segs[0] and "sig=6" not in segs[0] and syn == "uper" and "setof" in tr and label != "valid":
-        # SET_OF__encode_sorted returned NULL (an element cannot be encoded) and the result is used unchecked
-        run.known_finding("C07-setof-uper-unencodable-element", line)
-        ctx.died.setdefault("C07-setof-uper-unencodable-element", []).append(dict(rep, k=-1, replay_cmd="trace %s der %s %s -1" % (tn, der, syn)))
-        return None
     if "DIED" in segs[0] or "ret" not in head:
         run.violation("crash:encode(%s)" % syn, dict(rep, what="the fault-free encoder call died or gave no result"))
         return None
@@ -246,9 +167,7 @@ def check_sweep(ctx, m, tn, der, syn, out, tr, model_bytes, label):
         exp = "NONE" if model_bytes == "NONE" else model_bytes
         got = "NONE" if ret < 0 else (data.hex() if data else "-")
         if exp != got and not (exp == "" and got == "-"):
-            if syn == "uper" and ret < 0 and m["name"] != "C07X" and (C02.ref_to_choice(m, tn) or C02.uses_choice_ref(m, dict(m["defs"])[tn])):
-                run.count("c02_choice_ref_no_per(not a C07 matter)")        # recorded under C02; -1 with EBADF is within C07
-            elif label == "valid":
+            if label == "valid":
                 run.violation("correspondence:Rt.%s" % syn, dict(rep, what="C encoder result differs from the model", model=exp, got=got), no_input=(ret < 0 or ret == len(data)))
             elif exp == "NONE":
                 run.violation("correspondence:unencodable(%s)" % syn, dict(rep, what="the model cannot encode this value (None) but the C returned %d" % ret, model=exp, got=got), no_input=True)
@@ -268,30 +187,11 @@ def check_sweep(ctx, m, tn, der, syn, out, tr, model_bytes, label):
         d = kv(seg)
         rk = dict(rep, k=k, c=seg, replay_cmd="trace %s der %s %s %d" % (tn, der, syn, k))
         if "DIED" in seg:
-            fid = None
-            aborted = "sig=6" in seg
-            if aborted and syn == "oer" and "oerpre" in tr and ret >= 0 and ((k >= 1 and sizes[k - 1] == 0) or ("oerext" in tr and sizes[k] == 0)):
-                # the invocation after the zero-length one is asn_put_aligned_flush(&preamble), result ignored;
-                # extensible SEQUENCE: assert(ret == 0) right after the first asn_put_few_bits
-                fid = "C07-oer-sequence-preamble-flush"
-            elif aborted and syn == "der" and "null" in tr and null_tl_chain(chunks, k):
-                # the failing invocation is the TL of a NULL (or one of the EXPLICIT tags written by the same der_write_tags call)
-                fid = "C07-null-der-failed-type"
-            elif aborted and syn == "uper" and "setof" in tr and ret >= 0:
-                fid = "C07-setof-uper-put-failure-ignored"
-            if fid:
-                ctx.died.setdefault(fid, []).append(rk)
-                run.known_finding(fid, rk["replay_cmd"])
-            else:
-                run.violation("crash:cbfail(%s)" % syn, dict(rk, what="the process died (abort/signal/sanitizer) when the callback failed at invocation %d" % k))
+            run.violation("crash:cbfail(%s)" % syn, dict(rk, what="the process died (abort/signal/sanitizer) when the callback failed at invocation %d" % k))
             continue
         want = "ret=-1 errno=EIO calls=%d d=%d:%s" % (k + 1, sum(sizes[:k]), fnv(b"".join(chunks[:k])))
         got = "ret=%s errno=%s calls=%s d=%s" % (d.get("ret"), d.get("errno"), d.get("calls"), d.get("d"))
-        if got != want and syn == "oer" and "oerpre" in tr and k >= 1 and sizes[k - 1] == 0 and d.get("ret") == "-1" and d.get("errno") == "EIO" \
-           and int(d.get("calls", "0")) > k + 1:
-            # same root cause without the abort: the value fails to encode later anyway, the encoder went on calling
-            run.known_finding("C07-oer-sequence-preamble-flush", rk["replay_cmd"])
-        elif got != want:
+        if got != want:
             run.violation("oracle:cb_failure_eio(%s)" % syn, dict(rk, what="callback failing at invocation %d: expected [%s] got [%s]" % (k, want, got)))
         run.count("cbfail_%s" % syn)
     return ret, chunks
@@ -355,12 +255,12 @@ def check_newbuf(ctx, m, tn, der, syn, out, ret, chunks, label):
         if d.get("ret") != "-1" or d.get("errno") in ("E0", "EIO", None):
             run.violation("oracle:new_buffer_exact(%s)" % syn, dict(rep, what="failing encoder: expected ret=-1 with an errno, got [%s]" % out[:200]))
         elif d.get("buf") != "NULL":
-            # asn_application.h: "On failure: (.buffer) is NULL"
-            run.known_finding("C07-new-buffer-not-null-on-failure", line)
+            # asn_application.h: "On failure: (.buffer) is NULL" (theorem C07_new_buffer_null_on_failure)
+            run.violation("oracle:new_buffer_null_on_failure(%s)" % syn, dict(rep, what="asn_encode_to_new_buffer failed (ret=-1) but returned a non-NULL buffer: [%s]" % out[:200]))
     run.count("newbuf_%s" % syn)
 
 
-def check_battery(ctx, m, tn, line, out, tr=()):
+def check_battery(ctx, m, tn, line, out):
     """`mut` / `zero` result: partially initialised structure through the three entry points"""
     run = ctx.run
     rep = {"module": m["text"], "type": tn, "command_line": line, "c": out[:1200]}
@@ -371,16 +271,7 @@ def check_battery(ctx, m, tn, line, out, tr=()):
         run.case(line + " " + syn)
         run.count("partial_%s_%s" % (kind, syn))
         if "DIED" in seg:
-            fid = None
-            if kind == "ELNULL" and syn in ("uper", "oer"):
-                fid = "C07-of-null-element"
-            elif syn == "uper" and "setof" in tr and "sig=6" not in seg:
-                # an element of a SET OF that cannot be encoded (CHOICE present 0, INTEGER without contents, ...)
-                fid = "C07-setof-uper-unencodable-element"
-            if fid:
-                run.known_finding(fid, line)
-            else:
-                run.violation("crash:partial(%s,%s)" % (kind, syn), dict(rep, segment=seg, what="the process died encoding a partially initialised structure (%s) with %s" % (kind, syn)))
+            run.violation("crash:partial(%s,%s)" % (kind, syn), dict(rep, segment=seg, what="the process died encoding a partially initialised structure (%s) with %s" % (kind, syn)))
             continue
         d = kv(seg)
         enc = d["enc"].split(":")
@@ -401,7 +292,7 @@ def check_battery(ctx, m, tn, line, out, tr=()):
             if int(buf[0]) != -1 or int(new[0]) != -1:
                 run.violation("oracle:size_accounting(%s,%s)" % (kind, syn), dict(rep, segment=seg, what="entry points disagree on failure: %s" % seg))
             elif new[2] != "NULL":
-                run.known_finding("C07-new-buffer-not-null-on-failure", line)
+                run.violation("oracle:new_buffer_null_on_failure(%s,%s)" % (kind, syn), dict(rep, segment=seg, what="asn_encode_to_new_buffer failed but returned a non-NULL buffer: %s" % seg))
 
 
 # ---------------------------------------------------------------- model side
@@ -455,7 +346,7 @@ def model_part(ctx, items):
         if ret >= 0:
             expect.append((rep, "ret=%d errno=E0 buf=%s" % (ret, data.hex() or "-")))
         else:
-            expect.append((rep, "ret=-1 errno=%s buf=%s" % (errno, data.hex() or "-")))
+            expect.append((rep, "ret=-1 errno=%s buf=NULL" % errno))      # (.buffer) is NULL on failure (check_newbuf saw it on the C)
     rc, mo, me = run_lines(ctx.model, lines, timeout=900)
     if rc != 0 or len(mo) != len(lines):
         raise RuntimeError("model driver failed: rc=%s lines=%d/%d %s" % (rc, len(mo), len(lines), me[-500:]))
@@ -480,7 +371,6 @@ def main(tier):
                                                "log_tail": (out if not ok else plog)[-2000:], "grep_gate": gate}, no_input=True)
     model = model_build()
     ctx = Ctx(run, model)
-    ctx.died = {}
     try:
         nm, nt, nv = (8, 5, 4) if tier == "quick" else (40, 6, 8)
         mods, cases = build_corpus(run, rng, nm, nt, nv, tier, tag="c07mods", moddrv_extra=INC)
@@ -547,7 +437,6 @@ def main(tier):
         lines2, idx2 = [], []
         i = 0
         for wi, (_m, tn, der, label, mb) in enumerate(ws):
-            tr = traits(m, tn)
             for syn in SYNS:
                 o = out[i]
                 i += 1
@@ -555,7 +444,7 @@ def main(tier):
                     if label == "valid" or o in ("CRASH", "BADARG"):
                         run.violation("harness:decode", {"what": "transport DER not accepted", "module": m["text"], "type": tn, "der": der, "c": o}, no_input=True)
                     continue
-                r = check_sweep(ctx, m, tn, der, syn, o, tr, mb.get(syn), label)
+                r = check_sweep(ctx, m, tn, der, syn, o, mb.get(syn), label)
                 if r is None:
                     continue
                 ret, chunks = r
@@ -602,13 +491,10 @@ def main(tier):
             lines4.append("zero %s" % tn)
         out4 = run_mod(run, m, lines4, "C07")
         for l, o in zip(lines4, out4):
-            check_battery(ctx, m, l.split()[1], l, o, traits(m, l.split()[1]))
+            check_battery(ctx, m, l.split()[1], l, o)
     if nthm:
         model_part(ctx, model_items)
-    # one full witness per known finding into the evidence
-    for fid, rs in ctx.died.items():
-        run.sample({"known_finding": fid, "witness": rs[0]["replay_cmd"], "module_type": rs[0]["type"], "k": rs[0]["k"]})
-    tb = ["Coq 8.16.1 kernel; vm_compute for Examples and refuted witnesses",
+    tb = ["Coq 8.16.1 kernel; vm_compute for Examples",
           "axioms under Print Assumptions: " + (", ".join(sorted(axioms)) or "none (Closed under the global context)"),
           "extraction: ExtrOcamlBasic only; OCaml 4.13.1; ocaml/drv_c07.ml",
           "harness/moddrv.c + harness/moddrv_c07.inc (fork per encoder call; fault-injecting callback; descriptor walk for the mutations); gcc + ASan/UBSan",
